@@ -300,7 +300,19 @@ def run(tier, seed, replay=None):
         sub_cases = [dict(c, opts={"has_impl": False}) for c in cases if c["id"] in set(sample)]
         run2 = pipeline.Run(PROP, "compile")
         res2 = run2.vgen(sub_cases)
-        run2.compile(want_builder=False, want_str=False, want_default=False)
+        try:
+            run2.compile(want_builder=False, want_str=False, want_default=False)
+        except Exception as e:
+            # KF-C07-1 surfaces as a span-less E0275: if a flattened cycle slipped past the filter, the compiled
+            # sample is rebuilt without graphs that have flattened nodes (they stay in the containment check)
+            if "E0275" not in str(e) or "FlatMapSerialize" not in str(e):
+                raise
+            rep.count("compile_sample_rebuilt_without_flat_nodes")
+            sample = [c for c in sample if "flat" not in (meta[c]["kinds"] or [])]
+            sub_cases = [dict(c, opts={"has_impl": False}) for c in cases if c["id"] in set(sample)]
+            run2 = pipeline.Run(PROP, "compile2")
+            res2 = run2.vgen(sub_cases)
+            run2.compile(want_builder=False, want_str=False, want_default=False)
         for cid in sample:
             for d in run2.s2.diags.get(cid, []):
                 if d.get("file") == "gen" and d.get("code") == "E0072":
@@ -352,7 +364,13 @@ def run(tier, seed, replay=None):
 
 def flatten_only_cycle(n, kinds, edges):
     """A cycle made of flattened members only (flat node -> direct reference)."""
-    eff = [(a, b) for (a, b, k) in edges if kinds[a] == "flat" and k in ("req", "opt")]
+    outdeg = {}
+    for (a, b, k) in edges:
+        outdeg[a] = outdeg.get(a, 0) + 1
+    eff = [(a, b) for (a, b, k) in edges
+           if (kinds[a] == "flat" and k in ("req", "opt")) or
+           # an alias (transparent newtype, possibly over Option) hands the flattening serializer through
+           (kinds[a] == "alias" and outdeg[a] == 1 and k in ("req", "opt", "nullable"))]
     return has_cycle(n, eff)
 
 
